@@ -20,4 +20,14 @@ def templates(tier, seed):
                 ts.append(Template(f"F/{''.join(arr)}/strict={strict}/N={N}", t_lazy, ("frame", N, dict(arr=arr, strict=strict))))
         for rd in ("all", "exclude_first", "exclude_last"):
             ts.append(Template(f"F/joint_unique/rd={rd}/N={N}", t_lazy, ("frame", N, dict(arr=["a", "b"], unique=["a", "b"], rd=rd))))
+        # a regex column governing several columns, one of them with the wrong physical dtype: the report must name that column
+        for arr, kinds in ((["a1", "a2", "b"], {"a1": "int"}), (["a1", "a2", "b"], {"a2": "int"}), (["a1", "a2", "b"], {}), (["a1", "b", "a2"], {"a1": "int", "a2": "int"})):
+            ts.append(Template(f"R/{''.join(arr)}/wrong={'+'.join(kinds) or 'none'}/N={N}", t_lazy, ("frame", N, dict(arr=arr, kinds=kinds, regex="^a[0-9]$"))))
+        ts.append(Template(f"F/ab/wrong=a/N={N}", t_lazy, ("frame", N, dict(arr=["a", "b"], kinds={"a": "int"}))))
+        # restricted validation depth / coercion failure: lazy and eager still agree, counts equal the collected errors per reason
+        for depth in ("SO", "DO"):
+            for arr, extra in ((["a", "b"], {}), (["a", "b", "x"], {"strict": True}), (["a", "b"], {"coerce_a_int": True}), (["b"], {})):
+                tag = "+".join(f"{k}={v}" for k, v in extra.items()) or "plain"
+                ts.append(Template(f"D/{depth}/{''.join(arr)}/{tag}/N={N}", t_lazy, ("frame", N, dict(arr=arr, depth=depth, **extra))))
+        ts.append(Template(f"F/ab/coerce_a_int/N={N}", t_lazy, ("frame", N, dict(arr=["a", "b"], coerce_a_int=True))))
     return ts
